@@ -113,8 +113,18 @@ def big_board(tier):
     return gen
 
 
+def medium_phase(tier):
+    from harness import medium
+    def gen():
+        for c in medium.medium_cases(9 if tier == "quick" else 120, base_seed=13):
+            for prune in (True, False):
+                yield dict(kind="medium", seed=c["seed"], n_inner=c["n_inner"], tkey=c["seed"] % 1000, prune=prune)
+    return gen
+
+
 def phases(tier):
-    return [Phase("stopping-games", strategy=lambda: game_cases(10 if tier == "quick" else 12), examples=(900, 40000)),
+    return [Phase("medium-size-games", enum=medium_phase(tier), note="stopping games of 20-300 states, no oracle needed"),
+            Phase("stopping-games", strategy=lambda: game_cases(10 if tier == "quick" else 12), examples=(900, 40000)),
             Phase("boards", strategy=lambda: board_cases(3, 3) if tier == "quick" else board_cases(4, 4),
                   examples=(50, 1200)),
             Phase("big-board", enum=big_board(tier))]
@@ -174,6 +184,13 @@ def check_case(case):
         v.key = case
         v.cls("board")
         small = False
+    elif case["kind"] == "medium":
+        from harness import medium
+        game = medium.medium_game(case["seed"], case["n_inner"])
+        t = derived_transform(game, case["tkey"])
+        v.key = case
+        v.cls("medium")
+        small = False
     else:
         game = case["game"]
         t = case["t"]
@@ -204,8 +221,15 @@ def check_case(case):
             v.cls("cycle")
         v.nontrivial = changed and (dead2 or facts.has_cycle)
     else:
-        oa = solve(game, prune, sweeps=4000)
-        ob = solve(tgame, prune, sweeps=4000)
+        if case["kind"] == "medium":
+            oa, ia = medium.solve_medium(game, prune)
+            ob, ib = medium.solve_medium(tgame, prune)
+            if oa is None or ob is None:
+                v.inconclusive = "T^ not usable"
+                return v
+        else:
+            oa = solve(game, prune, sweeps=4000)
+            ob = solve(tgame, prune, sweeps=4000)
         v.nontrivial = changed
     if v.nontrivial:
         v.cls("nontrivial")
